@@ -43,6 +43,15 @@ Proof.
 Qed.
 Print Assumptions C16_conc_log_order_locked_from.
 
+(* requests that do NOT overlap: every transaction id that enters the table during a run (any schedule, any number of writers)
+   is larger than every id already there - nextval hands out increasing values in call order and never gives one back.  So a
+   request all of whose statements run after another request's COMMIT receives the larger transaction id.  (This is what a
+   CACHE n > 1 on the sequence breaks: seeded N-C16, monitor [c16-nonoverlapping-order].) *)
+Theorem C16_conc_nonoverlapping_order : forall g sched, tx_inv g ->
+  forall t t', In t (g_txs g) -> In t' (g_txs (run g sched)) -> ~ In (t_id t') (map t_id (g_txs g)) -> t_id t < t_id t'.
+Proof. exact later_ids_are_larger. Qed.
+Print Assumptions C16_conc_nonoverlapping_order.
+
 (* FULL STATEMENT "a later COMMIT never receives a smaller id" (transaction ids):
      forall hash prefix writers sched, StronglySorted Z.lt (g_ctxs (sched_outcome hash prefix writers sched))
    refuted, even with HASH_LOGS = SYNC: InsertTransaction draws its id before InsertLog takes the advisory lock *)
@@ -91,3 +100,12 @@ Proof.
   - vm_compute. reflexivity.
   - vm_compute. reflexivity.
 Qed.
+
+(* non-vacuity of C16_conc_nonoverlapping_order: after writer 1 committed id 2 (state g1, reached by a schedule in which writer 0 has
+   already drawn id 1), the run goes on: writer 0 commits, writer 2 - not started before - draws its id: 3 > 2 *)
+Example C16c_nonoverlap_example :
+  let ws := [xfer "alice" "bob" 0; xfer "carol" "dave" 1; xfer "alice" "dave" 2] in
+  let g1 := sched_outcome true [] ws [0; 0; 1; 1; 1; 1; 1]%nat in
+  let g2 := run g1 [0; 0; 0; 2; 2; 2; 2; 2]%nat in
+  map t_id (g_txs g1) = [1; 2] /\ g_commits g1 = [1%nat] /\ map t_id (g_txs g2) = [1; 2; 3] /\ g_commits g2 = [1; 0; 2]%nat.
+Proof. vm_compute. repeat split; reflexivity. Qed.
